@@ -117,7 +117,9 @@ CLAIMS = {
         category=MC, design_ref="DESIGN.md 3 C12",
         text="Contracts are written in Payoff.tla from the property text; TLC checks the ordering relations and that the clause machine (OrderedDict replacement semantics) "
              "equals the left fold in registration order, over all lattice paths (T=1..4), strikes at/between/outside lattice points, call/put, start indices and 15 clause "
-             "sequences; each terminal state is replayed into the functional payoffs and the derivative classes over injected buffers; start indices over Grid.tla's menu.",
+             "sequences; each terminal state is replayed into the functional payoffs and the derivative classes over injected buffers; start indices over Grid.tla's menu. "
+             "Registry.tla (clauses / underliers / listing with the implementation's name validation) is checked on its whole finite state space and its histories are replayed into a real derivative "
+             "after every operation; every payoff computed in the repository's own tests is judged by the contracts (suite oracle).",
         note="Trusted: TLC, torch. Prices on {1,2,4} (powers of two make ratios and log-returns exact); variance swap through ln(2)^2."),
     "C13": dict(
         engine="Grid.tla / TLC -> replay",
